@@ -16,6 +16,10 @@ CLAIMED = {
         text="Lean 4 proofs over status tables REGENERATED from status_codes.rs/http.rs/structs.rs on every run (token<->code<->http constant<->condition agree for every row; exact keys sort before their range key) and over a model of build_enum/build_status_handlers and of the emitted if-chain: for well-formed single-media responses the chain picks, for every status 100-599, the variant of the exact key, else NXX, else default/Unknown (dispatch_spec). The model's chain is compared with the chain emitted by the current sources (parsed with syn) and the emitted chain itself is judged for all 500 codes x 10 content types on every generated responses object.",
         note="Trusted: Lean kernel; translator for the tables; numeric values of http::StatusCode constants (hand table checked against the http crate each run); syn extraction of the chain; serde body decoding not modelled. Three defect classes (content-type fall-through, non-canonical keys, schema-suffix panic) are reproduced by the model and recorded as known findings.",
         ref="§6 C04"),
+    "C03": dict(
+        text="Lean 4 proofs over a model of the path-template tokenizer/segment builder and of url's push + percent-decode: an accepted template segment is the concatenation of its parts, literals are brace-free, the emitted format! template has exactly one {} per argument and no other brace, percent-decoding an encoded segment returns the original bytes for ALL byte strings and never contains a separator, path-level/operation-level parameter merge lets the operation win. Tied to the code by exhaustive templates through ParsedPath::parse, exhaustive short strings through the real url crate, and by judging the client method emitted by the current sources (method, pushes vs template, query/header presence, body encoder, validate-before-send) on random operations.",
+        note="Trusted: Lean kernel; Sem/Url.lean as a model of url 2.5/percent-encoding (validated differentially); reqwest/serde_urlencoded wire encoding is not modelled (which builder call is emitted is). Five defect classes recorded as known findings (dot segments, control chars, empty first segment, OPTIONS/TRACE panic, parameter field clash).",
+        ref="§6 C03"),
 }
 PENDING = ["C01","C02","C03","C04","C05","C06","C07","C08","C10","C11","C12","C13","C14","C15","C16","C17","C18","C19","C20"]
 
